@@ -2,8 +2,9 @@
 
 Decided: constant folding of metadata values is exhaustive over the 47 node kinds; the metadata table
 (name key / other keys x folding outcome); precedence of the name and description sources; the rule grammar
-is `MetaItem* Expr` over the same expression language.  NOT decided: that the name is the first //-comment
-line and the description the remaining ones (line-oriented string processing in Rule::parse)."""
+is `MetaItem* Expr` over the same expression language; the flow of the comment lines (first -> name, rest ->
+description, offered unconditionally).  NOT decided: how a line is recognised as a //-comment and trimmed
+(line-oriented string processing in Rule::parse)."""
 import evalsum
 import cfg
 import precedence
@@ -121,6 +122,64 @@ def run(res, f, tier):
     good = all((ret == "Some(BTreeMap::get!(self.metadata, 'description').String.0)") == (("BTreeMap::get!(self.metadata, 'description')", "is String") in c) for c, ret in r) and \
         all(ret in ("Option::None", "Some(BTreeMap::get!(self.metadata, 'description').String.0)") for _, ret in r) and len(r) == 11
     ob(good, "C14|description", "description() must be Some exactly for a string-valued description entry: %s" % r[:3])
+    # ---- flow of the comment lines in Rule::parse: whatever iterator yields them, its FIRST item is offered as the
+    # name and the REMAINING items, joined, as the description — both unconditionally (precedence is decided in
+    # set_name / set_description, checked above); a rule without any comment line offers neither.
+    from norm import short_callee
+    rp = evalsum.find_by_name(f, "parse", "ruleset::rule::Rule")
+    if len(rp) != 1:
+        raise Inconclusive("Rule::parse not found")
+    opq = lambda p: any(p.endswith(x) for x in ("RuleBuilder::set_name", "RuleBuilder::set_description", "RuleBuilder::build", "RuleParser::parse", "RuleParser::new"))
+    it = Interp(f, opaque=opq, loop_bound=2)
+    paths = it.run(rp[0], [("sym", "input")], State())
+    flow_bad = []
+    classes = set()
+    for s, rv in paths:
+        conds = dict(norm_cond(c) for c in s.conds)
+        calls = [(short_callee(e[1]),) + tuple(show(norm(a)) for a in e[2]) for e in s.events if e[0] == "call"]
+        nexts = [(e[0], show(norm(e[1])), e[2]) for e in s.events if e[0] in ("iter_next", "iter_end")]
+        ret = show(norm(it.resolve(s, rv)))
+        parsed = [c for c in calls if c[0] == "RuleParser::parse"]
+        ok_parse = any(k.startswith("RuleParser::parse(") and v == "ok" for k, v in conds.items())
+        if not ok_parse:
+            classes.add("syntax-error")
+            if not ret.startswith("Err(RuleParseError("):
+                flow_bad.append(("a syntax error must be reported as RuleParseError", ret[:120]))
+            continue
+        B = parsed[0][0] + "!(" + ", ".join(parsed[0][1:]) + ")" if parsed else "?"
+        sn = [c for c in calls if c[0] == "RuleBuilder::set_name"]
+        sd = [c for c in calls if c[0] == "RuleBuilder::set_description"]
+        bd = [c for c in calls if c[0] == "RuleBuilder::build"]
+        srcs = sorted(set(n[1] for n in nexts))
+        if len(srcs) != 1 or "input" not in srcs[0]:
+            flow_bad.append(("comment lines must come from one iterator over the input text", srcs))
+            continue
+        SRC = srcs[0]
+        first = [n for n in nexts if n[0] == "iter_next" and n[2] == 0]
+        second = [n for n in nexts if n[0] == "iter_next" and n[2] == 1]
+        if not first:
+            classes.add("no-comment")
+            if sn or sd or bd != [("RuleBuilder::build", B)]:
+                flow_bad.append(("without comment lines neither a name nor a description may be offered", (sn, sd, bd)))
+            continue
+        E0, E1 = "elem0(%s)" % SRC, "elem1(%s)" % SRC
+        if sn != [("RuleBuilder::set_name", B, E0)]:
+            flow_bad.append(("the first comment line must be offered as the name (unconditionally)", sn))
+            continue
+        cur = "RuleBuilder::set_name(%s, %s)" % (B, E0)
+        if not second:
+            classes.add("name-only")
+            if sd or bd != [("RuleBuilder::build", cur)]:
+                flow_bad.append(("a single comment line gives a name and no description", (sd, bd)))
+            continue
+        classes.add("name+description")
+        good = (len(sd) == 1 and sd[0][1] == cur and E1 in sd[0][2] and SRC in sd[0][2] and E0 not in sd[0][2]
+                and bd == [("RuleBuilder::build", "RuleBuilder::set_description(%s, %s)" % (cur, sd[0][2]))])
+        if not good:
+            flow_bad.append(("the comment lines after the first (and only those) must be joined into the description", (sd, bd)))
+    ob(not flow_bad and classes >= {"syntax-error", "no-comment", "name-only", "name+description"}, "C14|comment-flow",
+       "Rule::parse must offer the first comment line as the name and the remaining ones as the description, whatever @name/@description say: %s" % flow_bad[:3],
+       {"path_classes": sorted(classes)})
     # ---- same expression language: Rule = MetaItem* Expr with the very Expr of the stand-alone parser
     g, Pg = extracted_grammar(f)
     Pg = reachable(Pg, ["Expr", "Rule"])
